@@ -31,6 +31,8 @@ func (u ngapUnit) name() string {
 
 // runNGAPSweep enumerates NGAP values (all single deviations per message type in quick, pairs in
 // thorough) and applies the oracle of C03 (bytes == reference encoding) or C04 (round trips).
+var ngapHeld held // the previous case's encoding, re-examined after the next encode
+
 func runNGAPSweep(ctx *Ctx, prop string) {
 	r := ctx.R
 	if ctx.Isolate() {
@@ -110,6 +112,12 @@ func runNGAPSweep(ctx *Ctx, prop string) {
 			l.Case(cs, c.Deviations() > 0, fmt.Sprintf("%d:%x", len(refB), refB[:min(6, len(refB))]))
 			replay := map[string]interface{}{"unit": u.name(), "picks": c.Picks, "value": node.String()}
 			if prop == "C03" {
+				if !pan && libErr == nil {
+					ngapHeld.next(r, "encode/result-changed-by-a-later-encode", libB, cs)
+					if ngapSecondEncode != "" {
+						r.Violate("encode/second-encode-of-the-same-value-differs/"+lc, cs, ngapSecondEncode, replay)
+					}
+				}
 				switch {
 				case pan:
 					r.Violate("encode/panic/"+errClass(libErr), cs, libErr.Error(), replay)
@@ -154,7 +162,12 @@ func runNGAPSweep(ctx *Ctx, prop string) {
 				r.Violate("roundtrip/encode-error/"+errClass(libErr), cs, libErr.Error(), replay)
 			}
 			// C04 (b): the reference encoding is accepted, decoded to the value, re-encoded to the same bytes
+			refSnap := append([]byte{}, refB...)
 			back, derr, dp := dec(refB)
+			if !bytes.Equal(refSnap, refB) {
+				r.Violate("canonical/decoder-modified-its-input/"+lc, cs, fmt.Sprintf("input %s, after decoding the same slice holds %s", shortHex(refSnap), shortHex(refB)), replay)
+				copy(refB, refSnap)
+			}
 			switch {
 			case dp:
 				r.Violate("canonical/decode-panic/"+errClass(derr), cs, derr.Error(), replay)
